@@ -9,6 +9,7 @@ import Driver.Match
 import Driver.Bus
 import Driver.Auth
 import Driver.Acc
+import Driver.Act
 /-
   Line-protocol driver over Dbus.Model (compiled; imports no proofs and no Mathlib).
 
@@ -44,6 +45,7 @@ structure Stats where
   bus : BusState := {}
   auth : AuthState := {}
   acc : Dbus.Model.Accept.Acc := { max := 1 }
+  act : ActState := {}
 
 def handle (st : Stats) (line : String) : Stats × Option String :=
   let toks := (line.trimAscii.toString.splitOn " ").filter (· ≠ "")
@@ -58,6 +60,9 @@ def handle (st : Stats) (line : String) : Stats × Option String :=
   | "auth" :: rest =>
     let (b, ans) := authCmd st.auth rest
     ({ st with auth := b, bad := if ans = "bad-op" then st.bad + 1 else st.bad }, some ans)
+  | "act" :: rest =>
+    let (b, ans) := actCmd st.act rest
+    ({ st with act := b, bad := if ans = "bad-op" then st.bad + 1 else st.bad }, some ans)
   | "acc" :: rest =>
     let (b, ans) := accCmd st.acc rest
     ({ st with acc := b, bad := if ans = "bad-op" then st.bad + 1 else st.bad }, some ans)
